@@ -40,6 +40,34 @@ func wrongKindScenario(localIL, peerIL bool, inject string, tsnKind string, peer
 			case "far":
 				tsn = peerLast + a.payloadQueue.maxTSNOffset + 9
 			}
+			if inject == "ABANDON" {
+				// the endpoint itself abandons a message towards this peer: whatever it announces
+				// the skip with is of the negotiated kind (nothing at all if the peer does not
+				// support that kind)
+				pr, err := a.OpenStream(4, PayloadTypeWebRTCBinary)
+				if err == nil {
+					m.streamsSeen = append(m.streamsSeen, pr)
+					pr.SetReliabilityParams(false, ReliabilityTypeRexmit, 0)
+					p.ackAll()
+					ev1 := len(m.W.events)
+					_, _ = pr.WriteSCTP(payload(4, 0, 40), PayloadTypeWebRTCBinary)
+					m.Sleep(3500 * time.Millisecond)
+					p.settle(0)
+					for _, ev := range m.W.events[ev1:] {
+						if ev.Kind != "send" || ev.From != 0 || ev.Pkt.dec == nil {
+							continue
+						}
+						for _, c := range ev.Pkt.dec.Chunks {
+							if (c.Typ == wFWDTSN && negotiated) || (c.Typ == wIFWDTSN && !negotiated) {
+								m.Failf("kind.fwd", "local interleaving=%v, peer offers I-DATA=%v without I-FORWARD-TSN=%v: the endpoint announced an abandoned message with %s", localIL, peerIL, p.noIFwd, wTypeName(c.Typ))
+							}
+						}
+					}
+				}
+				m.Observe("abandon")
+				c03Teardown(m, p)
+				return
+			}
 			var raw []byte
 			wantAbort := false
 			switch inject {
@@ -171,6 +199,8 @@ func c17EndToEnd(j *Job) {
 				j.Explore(fmt.Sprintf("kind-noifwd/l%v/%s/%s", l, inj, tk), wrongKindScenario(l, true, inj, tk, true), Budget{}, nil)
 			}
 		}
+		j.Explore(fmt.Sprintf("kind-noifwd/l%v/ABANDON", l), wrongKindScenario(l, true, "ABANDON", "new", true), Budget{}, nil)
+		j.Explore(fmt.Sprintf("kind/l%v/ptrue/ABANDON", l), wrongKindScenario(l, true, "ABANDON", "new"), Budget{}, nil)
 	}
 	// contiguity / fragment order on the wire with concurrent writers: all schedules with <= D deviations
 	for _, mode := range stdModes() {
